@@ -73,6 +73,7 @@ STATEMENT_STATUS: Dict[str, str] = {
     "C02_chain_order": "proved (round 2): table -> XRefStm -> Prev, circular Prev not followed",
     "C02_chain": "proved (round 6): read_xref_from over a chain of ANY number of plain / hybrid revisions returns the sections newest first "
                  "(table before its XRefStm stream) and visits exactly their positions",
+    "C02_chain_checked": "proved (round 6): same with the executable hypothesis chainOf evaluated per file (q.chain)",
     "C02_table_represents / C02_stream_represents": "proved (round 2): SecRep follows from what the writer wrote",
     "C02_row_types / C02_inuse_types / C02_objstm_index / C02_defaults / C02_literals":
         "proved (round 2) about definitions REGENERATED from the Python source (Gen/Xref.lean)",
@@ -893,6 +894,7 @@ def tie_case(ctx: C.Ctx, case: Dict[str, Any], data: bytes, layout: Dict[str, An
     qlines.append(qtail)
     qwritten = f"q.written 0 {bound}"
     qlines.append(qwritten)
+    qlines.append("q.chain")
     out = ctx.driver.ask(lines + qlines)
     inp = {"kind": "history", "case": case, "queries": queries}
     if any(o != "ok" for o in out[:nsetup]):
@@ -914,6 +916,11 @@ def tie_case(ctx: C.Ctx, case: Dict[str, Any], data: bytes, layout: Dict[str, An
     ctx.branch("twin:q.written:" + r[qwritten].replace(" ", ",") + (":index-overshoot/self-stm" if special else ""))
     if r[qwritten] != "true true true true" and not special:
         ctx.disagree("writer-twin q.written", inp, "true true true true", r[qwritten])
+    # hypothesis of C02_chain_checked: the file's sections form a chain of plain / hybrid revisions
+    selfprev = any(p.get("self_prev") for p in case["plans"])
+    ctx.branch("hyp:chain:" + r["q.chain"].replace(" ", ",") + (":self-prev" if selfprev else ""))
+    if r["q.chain"] != "true true true" and not selfprev:
+        ctx.disagree("q.chain", inp, "true true true", r["q.chain"])
     try:
         with Watchdog(30.0):
             _tie_compare(ctx, inp, data, layout, queries, exp, bufs, r, qs, bound, tparts, containers)
